@@ -134,6 +134,48 @@ func registerModels2(e *Engine) {
 		}
 	}
 
+	// sync.WaitGroup in the sequentialised goroutine model: a counter (kept in the
+	// struct's last field); Wait with a non-zero counter would block
+	wgCtr := func(a Val) PtrVal {
+		p := a.(PtrVal)
+		if p.obj == 0 {
+			abort("panic", "nil *sync.WaitGroup")
+		}
+		return PtrVal{obj: p.obj, path: append(append([]int(nil), p.path...), 2)}
+	}
+	wgAdd := func(e *Engine, st *State, a Val, d *Term) {
+		f := wgCtr(a)
+		cur := rawGet(st, f).(*Term)
+		nv := BvBin("bvadd", cur, Extract(cur.s.W-1, 0, SExt(d, 64)))
+		if nv.IsConst() && int32(nv.c) < 0 {
+			abort("panic", "sync: negative WaitGroup counter")
+		}
+		rawSet(st, f, nv)
+		e.atomicEvent(st, f)
+	}
+	ic["(*sync.WaitGroup).Add"] = func(e *Engine, st *State, fr *Frame, in ssa.CallInstruction, a []Val) Val {
+		wgAdd(e, st, a[0], a[1].(*Term))
+		return nil
+	}
+	ic["(*sync.WaitGroup).Done"] = func(e *Engine, st *State, fr *Frame, in ssa.CallInstruction, a []Val) Val {
+		wgAdd(e, st, a[0], ConstBV(64, ^uint64(0)))
+		return nil
+	}
+	ic["(*sync.WaitGroup).Wait"] = func(e *Engine, st *State, fr *Frame, in ssa.CallInstruction, a []Val) Val {
+		f := wgCtr(a[0])
+		cur := rawGet(st, f).(*Term)
+		if !cur.IsConst() || cur.c != 0 {
+			abort("unsupported", "WaitGroup.Wait that would block in the sequentialised goroutine model")
+		}
+		e.atomicEvent(st, f)
+		return nil
+	}
+	ic["runtime.GOMAXPROCS"] = func(e *Engine, st *State, fr *Frame, in ssa.CallInstruction, a []Val) Val {
+		return ConstBV(64, 16)
+	}
+	ic["runtime.NumCPU"] = ic["runtime.GOMAXPROCS"]
+	ic["runtime.Gosched"] = func(e *Engine, st *State, fr *Frame, in ssa.CallInstruction, a []Val) Val { return nil }
+
 	// atomic.Value: the stored interface value lives in the struct's first field
 	avField := func(a Val) PtrVal {
 		p := a.(PtrVal)
@@ -327,6 +369,14 @@ func registerModels2(e *Engine) {
 			return TupleVal{[]Val{PtrVal{}, ConstBV(64, 0), opaqueErrNamed(st, "big.Float.Parse: "+err.Error())}}
 		}
 		return TupleVal{[]Val{setc(st, a[0].(PtrVal), z), ConstBV(64, uint64(b)), IfaceVal{}}}
+	}
+	ic["(*math/big.Float).SetInf"] = func(e *Engine, st *State, fr *Frame, in ssa.CallInstruction, a []Val) Val {
+		z := conc(e, st, a[0])
+		neg, ok := a[1].(*Term)
+		if z == nil || !ok || !neg.IsConst() {
+			cut("big.Float.SetInf")
+		}
+		return setc(st, a[0].(PtrVal), z.SetInf(neg.IsTrue()))
 	}
 	ic["(*math/big.Float).SetMode"] = func(e *Engine, st *State, fr *Frame, in ssa.CallInstruction, a []Val) Val {
 		z := conc(e, st, a[0])
